@@ -459,6 +459,12 @@ def nfa(
                 connect(compile(expr["expr"], cur), next)
                 cur = next
             if expr["max"] == -1:
+                if cur == from_:
+                    # {0,}: loop on a node of its own, like star - from_ may be
+                    # shared with the other alternatives of a choice
+                    loop = node()
+                    edge(cur, loop)
+                    cur = loop
                 connect(compile(expr["expr"], cur), cur)
             else:
                 for _i in range(expr["min"], expr["max"]):
